@@ -16,4 +16,10 @@ if ! go build -tags verif -o "bin/geomsim-$prop" ./cmd/geomsim 2>"bin/build-$pro
 	head -40 "bin/build-$prop.log" >&2
 	exit 2
 fi
-exec "bin/geomsim-$prop" run -prop "$prop" -tier "$tier"
+"bin/geomsim-$prop" run -prop "$prop" -tier "$tier"
+code=$?
+# keep a copy of thorough-tier evidence next to the file the harness reads
+if [ "$tier" = thorough ] && [ -f "evidence/$prop.json" ]; then
+	mkdir -p evidence/thorough && cp "evidence/$prop.json" "evidence/thorough/$prop.json"
+fi
+exit $code
